@@ -16,7 +16,8 @@ class Divergence(Exception):
 
 
 class Run:
-    def __init__(self, bodies, prefix, libdir):
+    def __init__(self, bodies, prefix, libdir, opcodes=False):
+        self.opcodes = opcodes
         self.n = len(bodies)
         self.bodies = bodies
         self.prefix = list(prefix)
@@ -31,14 +32,19 @@ class Run:
     def _tracer(self, tid):
         libdir = self.libdir
 
+        want = "opcode" if self.opcodes else "line"
+
         def loc(frame, event, arg):
-            if event == "line":
+            if event == want:
                 self.main.release()
                 self.sems[tid].acquire()
             return loc
 
         def glob(frame, event, arg):
             if frame.f_code.co_filename.startswith(libdir):
+                if self.opcodes:
+                    frame.f_trace_opcodes = True
+                    frame.f_trace_lines = False
                 return loc
             return None
         return glob
@@ -82,6 +88,44 @@ class Run:
         return self.results
 
 
+def warm_opcodes(bodies, libdir):
+    """CPython 3.12 instruments a code object for per-opcode events lazily: the first frames executed after
+    f_trace_opcodes is switched on still run uninstrumented.  One throw-away traced execution of every body makes all later
+    executions deliver opcode events from their first instruction.  Returns the number of opcode events seen per body
+    in a second traced execution (used as a self-check)."""
+    counts = []
+    for rnd in range(2):
+        counts = []
+        for b in bodies:
+            c = [0]
+
+            def loc(frame, event, arg, c=c):
+                if event == "opcode":
+                    c[0] += 1
+                return loc
+
+            def glob(frame, event, arg):
+                if frame.f_code.co_filename.startswith(libdir):
+                    frame.f_trace_opcodes = True
+                    frame.f_trace_lines = False
+                    return loc
+                return None
+
+            def run(b=b):
+                sys.settrace(glob)
+                try:
+                    b()
+                except BaseException:
+                    pass
+                finally:
+                    sys.settrace(None)
+            t = threading.Thread(target=run)
+            t.start()
+            t.join()
+            counts.append(c[0])
+    return counts
+
+
 def alternatives(run, start, bound):
     """prefixes to explore below this execution: one per (point >= start, alternative) within the preemption bound"""
     out = []
@@ -101,13 +145,13 @@ def alternatives(run, start, bound):
     return out
 
 
-def explore(make_bodies, bound, libdir, on_result, prefix=(), stop=None):
+def explore(make_bodies, bound, libdir, on_result, prefix=(), stop=None, opcodes=False):
     """all schedules below `prefix` with at most `bound` preemptions; on_result(results, run) per execution"""
     stack = [list(prefix)]
     n = 0
     while stack:
         p = stack.pop()
-        r = Run(make_bodies(), p, libdir)
+        r = Run(make_bodies(), p, libdir, opcodes)
         res = r.run()
         n += 1
         on_result(res, r)
